@@ -24,6 +24,16 @@ int main(int argc, char** argv) {
         M.begin_case(c, "creep " + s.descr());
         vh::set_grid(s.n, s.nb);
         Built b = build(s, s.nb);
+        // scale the impedance so that the largest kick is a chosen number of cells, from far below to above one cell
+        const double target_kick = std::pow(10.0, r.uni(-5, 0.3));
+        {
+            float* d0 = b.in->getData();
+            for (uint32_t bb = 0; bb < s.nb; bb++) for (uint32_t x = 0; x < s.n; x++) for (uint32_t y = 0; y < s.n; y++)
+                d0[bb * (size_t)s.n * s.n + (size_t)x * s.n + y] = (float)std::exp(-0.5 * ((x - 0.5 * s.n) * (x - 0.5 * s.n) + (y - 0.5 * s.n) * (y - 0.5 * s.n)) / ((s.n / 10.0) * (s.n / 10.0)));
+            b.in->updateXProjection(); b.wake->update();
+            double mx = 0; for (size_t i = 0; i < (size_t)s.n * s.nb; i++) mx = std::max(mx, std::fabs((double)b.kick->getForce()[i]));
+            if (mx > 0 && std::isfinite(mx)) { for (auto& z : s.Z) z *= (float)(target_kick / mx); b = build(s, s.nb); }
+        }
         auto fresh_in = grid_for(s, filling_for(s.nb)), fresh_out = grid_for(s, filling_for(s.nb));
         const size_t nn = (size_t)s.n * s.n, N = nn * s.nb;
         // per-step relative change of the distribution: from far below single precision resolution of the kick to large
@@ -36,8 +46,9 @@ int main(int argc, char** argv) {
             float* din = b.in->getData();
             for (uint32_t bb = 0; bb < s.nb; bb++) {
                 double a = am[bb] * (1 + rate * st), mx = cx[bb] + rate * st * s.n * 0.2;
+                const double sgy = std::min(sg[bb], (0.4 * s.n - 5) / 5.5);      // energy profile well inside the grid (centroid oracle below)
                 for (uint32_t x = 0; x < s.n; x++) for (uint32_t y = 0; y < s.n; y++)
-                    din[bb * nn + (size_t)x * s.n + y] = (float)(a * std::exp(-0.5 * ((x - mx) * (x - mx) + (y - cy[bb]) * (y - cy[bb])) / (sg[bb] * sg[bb])));
+                    din[bb * nn + (size_t)x * s.n + y] = (float)(a * std::exp(-0.5 * ((x - mx) * (x - mx) / (sg[bb] * sg[bb]) + (y - cy[bb]) * (y - cy[bb]) / (sgy * sgy))));
             }
             if (r.chance(0.05)) rate *= 30;          // occasional jump
             b.in->updateXProjection();
@@ -55,6 +66,29 @@ int main(int argc, char** argv) {
             long diff = 0; size_t first = 0;
             for (size_t i = 0; i < N; i++) if (!vh::bits_equal(fresh_out->getData()[i], b.out->getData()[i])) { if (!diff) first = i; diff++; }
             M.ev("updates_checked");
+            // (2) the charge receives the recorded wake: the energy centroid of each bunch moves by minus the profile-weighted mean of
+            // the recorded wake potential (orders >= 2 keep the first moment; bunches whose charge comes near the energy border are skipped)
+            if (s.it >= 2 && !bad) for (uint32_t bb = 0; bb < s.nb; bb++) {
+                double Q = 0, M0 = 0, E = 0, Qo = 0, M1 = 0, edge = 0, wmx = 0;
+                for (uint32_t x = 0; x < s.n; x++) wmx = std::max(wmx, std::fabs((double)forces[bb * s.n + x]));
+                const uint32_t mrg = (uint32_t)std::ceil(wmx) + 3;
+                const float* dout = b.out->getData();
+                for (uint32_t x = 0; x < s.n; x++) for (uint32_t y = 0; y < s.n; y++) {
+                    double v = din[bb * nn + (size_t)x * s.n + y], vo = dout[bb * nn + (size_t)x * s.n + y];
+                    Q += v; M0 += v * y; E += v * (double)forces[bb * s.n + x]; Qo += vo; M1 += vo * y;
+                    if (y < mrg || y + mrg >= s.n) edge += std::fabs(v);
+                }
+                if (!(Q > 0) || edge > 1e-7 * Q) { M.ev("centroid_checks_skipped_border_charge"); continue; }
+                double moved = M1 / Qo - M0 / Q, want = -E / Q;
+                double tol = 4e-7 * s.n + 1e-3 * std::fabs(want);
+                M.ev("kick_centroids_checked");
+                if (std::fabs(want) < 1e-3 && std::fabs(want) > 20 * tol) M.ev("kick_centroids_checked_below_1e-3_cell");
+                if (!M.within("centroid_shift_err_over_tol", std::fabs(moved - want) / tol, 1.0)) {
+                    vh::J d; d.s("spec", s.descr()).i("step", st).i("bunch", bb).n("centroid_shift", moved).n("minus_mean_recorded_wake", want).n("largest_kick_cells", wmx).n("tol", tol);
+                    M.violation("C05:kick_not_recorded_wake", "the energy centroid of a bunch does not move by (minus) the profile-weighted mean of the recorded wake potential", d.str());
+                    bad = true; break;
+                }
+            }
             if (!force_ok || diff) {
                 vh::J d; d.s("spec", s.descr()).i("step", st).n("relative_change_per_step", rate).i("force_is_current_wake", force_ok).i("cells_differ", diff)
                     .n("map_result", b.out->getData()[first]).n("fresh_map_result", fresh_out->getData()[first]);
